@@ -289,6 +289,18 @@ def err_frame(ctx: Ctx) -> RuleResult:
     """The number of frames between a node's creation and the user's line is the same wherever the library states it."""
     r = RuleResult("ERR-FRAME")
     base = ctx.P.classes[ctx.cls_q("ExecNode")]
+    # the walk up the stack is a COUNT of frames: no frame is skipped (or kept) because of the file it belongs to - user code that merely
+    # lives under a path starting like the package's (site-packages/tawazi_pipelines/..) would be skipped as well
+    gl = ctx.own_method("ExecNode", "get_call_location")
+    if gl is not None:
+        byfile = [n for n in iter_own_nodes(gl.node) if isinstance(n, (ast.While, ast.If))
+                  and any(isinstance(x, ast.Attribute) and x.attr in ("co_filename", "f_globals", "__file__") for x in ast.walk(n.test))]
+        r.ob(not byfile, {"get_call_location walks a fixed number of frames": not byfile})
+        if byfile:
+            r.violate("ExecNode.get_call_location: frames are skipped according to the file they belong to", gl.loc(byfile[0]),
+                      "the call location reported with a failing node is the user's line only when exactly the library's own frames are "
+                      "stepped over; a test on the file name also steps over user frames whose path starts like the package's", norm_src(byfile[0].test)[:100])
+            return r
     d = base.fields.get("call_location_frame")
     r.require(d is not None, "ExecNode.call_location_frame not found")
     default = None
